@@ -132,3 +132,6 @@ SHARED_BORROW_ADTS = {
 
 # replace(p, v) / take(p): return the old value of *p and overwrite it (modelled as a load followed by a store)
 MEM_REPLACE = {"core::mem::replace", "core::mem::take"}
+
+# p.write(v) / ptr::write(p, v): a store through the pointer
+PTR_WRITE = {"rawptr::write", "core::ptr::write"}
